@@ -686,7 +686,7 @@ func run(t *testing.T, tape *simrt.Tape) *hx.Outcome {
 								want = rm.Data[off:end]
 							}
 							if !bytes.Equal(b, want) {
-								s.Fail("verified-wrong-bytes", "a layer verified with the pinned TOC digest returned bytes of %q [off=%d,len=%d] that differ from the content the pinned TOC describes (passthrough=%v) [alteration=%s: %s; tampered=%v; unverified-use-before=%v; prior decisions on this cached layer: %q]", p, off, ln, pt, alt.kind, alt.note, tampered, strings.Contains(prior, "skip") && (skipCachedAll || skipRead[rm.Path]), prior)
+								s.Fail("verified-wrong-bytes", "a layer verified with the pinned TOC digest returned bytes of %q [off=%d,len=%d] that differ from the content the pinned TOC describes (passthrough=%v) [alteration=%s: %s; tampered=%v; unverified-use-before=%v; decisions taken on this cached layer so far: %q]", p, off, ln, pt, alt.kind, alt.note, tampered, strings.Contains(strings.Join(decisions, ","), "skip") && (skipCachedAll || skipRead[rm.Path]), strings.Join(decisions, ","))
 								return
 							}
 							readsOK++
